@@ -318,3 +318,9 @@ class MainBox:
 
     def __repr__(self):
         return "MainBox(%r)" % (self.v,)
+
+
+def gil_then_swallow(hold, n):
+    """Keeps the interpreter lock for ``hold`` model seconds, then swallows every Exception for n seconds."""
+    gil_sleeper(hold)
+    return swallow(n)
